@@ -344,5 +344,417 @@ def run_c11_jacobian(ctx):
     guarded_clause(ctx, "C11-a", "sampling::sample", "jacobian", a)
 
 
+# ---------------------------------------------------------------------------------------------------
+# C15 / C16-d: the matrix routine
+
+class MatrixWorld:
+    def __init__(self, ctx):
+        self.ctx = ctx
+        self.f = ctx.facts
+        self.ok = False
+        self.error = None
+        try:
+            self.dec = ctx.roles.decompose()
+        except RoleLost as e:
+            self.error = str(e)
+            return
+        X.POSITIVE_LEAVES |= {"q", "A"}
+        I = Interp(self.f)
+        self.I = I
+        try:
+            res = I.run_fn(self.dec.path, [world.matrix("A", "n"), world.settings()])
+        except Undecided as u:
+            self.error = "decompose_for_tropical could not be summarised: %s" % u.what
+            return
+        if not (isinstance(res, Opt) and res.some is True and isinstance(res.payload, Struct)):
+            self.error = "no Ok(DecompositionResult{..}) on the main path"
+            return
+        self.result = res.payload
+        self.ok = True
+
+
+_mworlds = {}
+
+
+def matrix_world(ctx):
+    key = id(ctx.facts)
+    if key not in _mworlds:
+        _mworlds[key] = MatrixWorld(ctx)
+    return _mworlds[key]
+
+
+def single_matrix_leaf(expr):
+    """Names of two-index leaves occurring in expr."""
+    names = set()
+
+    def visit(a):
+        if a[0] == "leaf" and len(a) == 4:
+            names.add(a[1])
+        return False
+    expr.has_atom(visit)
+    return names
+
+
+def find_local_impl(ctx, trait_suffix, self_contains, name):
+    out = []
+    for key, b in ctx.facts.mir.items():
+        fi = ctx.facts.fns.get(b.path) or {}
+        if fi.get("name") == name and (fi.get("impl_trait") or "").endswith(trait_suffix) and self_contains in (fi.get("impl_self") or ""):
+            out.append(b)
+    return out
+
+
+def run_c15(ctx):
+    ctx.rule("C15-a", "Mul for &SquareMatrix: (A·B)[r,c] = Σ_k A[r,k]·B[k,c]")
+    ctx.rule("C15-b", "outputs' wiring: determinant = (Π_i Q[i,i])², q_transposed[r,c] = Q[c,r] for one factor matrix Q, "
+                      "inverse[a,b] = Σ_k QTI[a,k]·QTI[b,k] with QTI the returned q_transposed_inverse (= Q⁻ᵀ·Q⁻¹ in this operand order)")
+    ctx.rule("C15-c", "the factor is written only on and below the diagonal (q_transposed upper-triangular) and every diagonal write is a square root")
+    ctx.rule("C15-d", "Index and IndexMut of SquareMatrix address the same flat offset r·dim + c")
+    f = ctx.facts
+    # a. Mul
+    muls = [b for b in find_local_impl(ctx, "arith::Mul", "&", "mul") if "SquareMatrix" in (f.fns[b.path].get("impl_self") or "")]
+    if len(muls) != 1:
+        ctx.lost("C15-a", "impl Mul<&SquareMatrix> for &SquareMatrix (found %d)" % len(muls))
+    else:
+        def a():
+            I = Interp(f)
+            ctx.fn(muls[0].path)
+            res = I.run_fn(muls[0].path, [world.matrix("A", "n"), world.matrix("B", "n")])
+            k = fresh("k")
+            want = ssum(leaf("A", "r", k) * leaf("B", k, "c"), k, "n")
+            compare(ctx, "C15-a", "(A·B)[r,c] == Σ_k A[r,k] B[k,c]", scalar_of(res.at("r", "c"), "entry"), want, muls[0].path, "matrix-product",
+                    {"r": "n", "c": "n"}, symmetric=())
+        guarded_clause(ctx, "C15-a", muls[0].path, "matrix-product", a)
+    # b. wiring
+    w = matrix_world(ctx)
+    if not w.ok:
+        ctx.ob("C15-b", "decompose_for_tropical summarised", False, "matrix::SquareMatrix::decompose_for_tropical", "kernel-undecided", detail=w.error)
+    else:
+        fn = w.dec.path
+        ctx.fn(fn)
+
+        def b():
+            r = w.result
+            det = scalar_of(r.fields["determinant"], "determinant")
+            qt = scalar_of(r.fields["q_transposed"].at("a", "b"), "q_transposed")
+            qti = r.fields["q_transposed_inverse"]
+            inv = scalar_of(r.fields["inverse"].at("a", "b"), "inverse")
+            names = single_matrix_leaf(qt)
+            ok_q = len(names) == 1
+            Q = sorted(names)[0] if names else "?"
+            ctx.ob("C15-b", "q_transposed[a,b] == Q[b,a] for a single factor matrix Q (= `%s`)" % Q, ok_q and qt == leaf(Q, "b", "a"), fn,
+                   "q-transposed-wiring", detail="q_transposed[a,b] = %s" % qt.key()[:300])
+            i = fresh("i")
+            want_det = Expr.atom(("prod", i, "n", leaf(Q, i, i))).powf(2)
+            compare(ctx, "C15-b", "determinant == (Π_i Q[i,i])²", det, want_det, fn, "determinant-wiring", {}, symmetric=())
+            k = fresh("k")
+            want_inv = ssum(scalar_of(qti.at("a", k), "qti") * scalar_of(qti.at("b", k), "qti"), k, "n")
+            compare(ctx, "C15-b", "inverse[a,b] == Σ_k QTI[a,k]·QTI[b,k] (inverse = q_transposed_inverse · its transpose)", inv, want_inv, fn,
+                    "inverse-product-wiring", {"a": "n", "b": "n"}, symmetric=())
+        guarded_clause(ctx, "C15-b", fn, "wiring", b)
+
+        def c():
+            recs = [r for r in w.I.recurrences]
+            # the factor's name: the matrix read by q_transposed
+            names = single_matrix_leaf(scalar_of(w.result.fields["q_transposed"].at("a", "b"), "q_transposed"))
+            if len(names) != 1:
+                raise Undecided("factor matrix not identified")
+            writes = []
+            for rec in recs:
+                for (var, path, op, val, gs, bs) in rec["effects"]:
+                    mid = [p for p in path if p[0] == "midx"]
+                    if mid and any(nm in str(var) or True for nm in names):
+                        writes.append((var, mid[0][1], gs, val, rec))
+            # writes to the variable that became the factor: identify by the opaque name used in outputs
+            fwrites = [wr for wr in writes if w.I.var_names.get(wr[0]) in names]
+            ok = bool(fwrites)
+            det = []
+            for (var, (r_, c_), gs, val, rec) in fwrites:
+                lower = (r_ == c_) or ("<", c_, r_) in [tuple(g) for g in gs] or ("<=", c_, r_) in [tuple(g) for g in gs]
+                if not lower:
+                    ok = False
+                    det.append("write at (%s,%s) under guards %s is not on/below the diagonal" % (r_, c_, gs))
+                if r_ == c_:
+                    e = scalar_of(val, "diagonal write")
+                    is_sqrt = len(e.terms) == 1 and any(str(x) == "1/2" for a, x in e.terms[0].atoms)
+                    if not is_sqrt:
+                        ok = False
+                        det.append("diagonal write is not a square root: %s" % e.key()[:120])
+            ctx.ob("C15-c", "factor `%s`: %d writes, all at (i,i) or (j,i) with j>i; diagonal writes are square roots" % (sorted(names)[0], len(fwrites)), ok, fn,
+                   "factor-triangular", detail="; ".join(det) or "no writes to the factor were found")
+        guarded_clause(ctx, "C15-c", fn, "triangular", c)
+    # d. Index / IndexMut offsets
+    def d():
+        offs = {}
+        for tr, nm in (("index::Index", "index"), ("index::IndexMut", "index_mut")):
+            bs = [b for b in find_local_impl(ctx, tr, "SquareMatrix", nm)]
+            if len(bs) != 1:
+                raise Undecided("impl %s for SquareMatrix (found %d)" % (tr, len(bs)))
+            ctx.fn(bs[0].path)
+            I = Interp(f)
+            me = Struct("SquareMatrix", {"data": Arr(("?",), lambda i: Num(Expr.leaf("data", i)), name="data"), "dim": Num(Expr.symbol("dim"))})
+            res = I.run_fn(bs[0].path, [me, Tup([Num(Expr.leaf("$ix", "r"), ent="r"), Num(Expr.leaf("$ix", "c"), ent="c")])])
+            from ..kern.interp import PlaceRef
+            if isinstance(res, PlaceRef):
+                idx = [p for p in res.path if p[0] == "idx"]
+                offs[nm] = idx[0][1] if idx else None
+            else:
+                e = scalar_of(res, "element")
+                offs[nm] = e.terms[0].atoms[0][0][2] if e.terms and e.terms[0].atoms else None
+        want = "⟨%s⟩" % (Expr.leaf("$ix", "r") * Expr.symbol("dim") + Expr.leaf("$ix", "c")).key()
+        ctx.ob("C15-d", "Index offset is r·dim + c", offs.get("index") == want, "matrix::SquareMatrix::index", "index-offset",
+               detail="offset %s, expected %s" % (offs.get("index"), want))
+        ctx.ob("C15-d", "IndexMut offset is r·dim + c (sibling agreement)", offs.get("index_mut") == want, "matrix::SquareMatrix::index_mut", "index-mut-offset",
+               detail="offset %s, expected %s" % (offs.get("index_mut"), want))
+    guarded_clause(ctx, "C15-d", "matrix::SquareMatrix", "index-offset", d)
+
+
+def run_c16d(ctx):
+    ctx.rule("C16-d", "helpers of the stability test: l21_norm(M) = Σ_j √(Σ_i M[i,j]²), new_identity[i,j] = [i=j], Sub is element-wise")
+    f = ctx.facts
+    R = ctx.roles
+
+    def find(name):
+        bs = [b for b in f.mir.values() if (f.fns.get(b.path) or {}).get("name") == name and "SquareMatrix" in ((f.fns.get(b.path) or {}).get("impl_self") or "")]
+        if len(bs) != 1:
+            raise Undecided("SquareMatrix::%s (found %d)" % (name, len(bs)))
+        return bs[0]
+
+    def body():
+        # role resolution through the decomposition's MIR: callee of the error value / the identity argument
+        dec = R.decompose()
+        from .c16 import _call_of
+        from . import common
+        norm = ident = None
+        for bi, t, cb in R.local_callees(dec):
+            if common.is_l21_norm(ctx, cb) and cb.arg_count == 1 and cb.local_ty(0) in ("T",):
+                norm = cb
+            if common.is_identity_ctor(ctx, cb):
+                ident = cb
+        if norm is None or ident is None:
+            raise Undecided("norm / identity helpers of the stability test")
+        ctx.fn(norm.path, ident.path)
+        I = Interp(f)
+        res = I.run_fn(norm.path, [world.matrix("M", "n")])
+        i, j = fresh("i"), fresh("j")
+        want = ssum(ssum(leaf("M", i, j) * leaf("M", i, j), i, "n").powf(sp.Rational(1, 2)), j, "n")
+        compare(ctx, "C16-d", "l21_norm(M) == Σ_j (Σ_i M[i,j]²)^½", scalar_of(res, "norm"), want, norm.path, "l21-norm", {}, symmetric=())
+        I = Interp(f)
+        res = I.run_fn(ident.path, [world.matrix("M", "n"), num_size("n")])
+        want = Expr.const(1).guarded([("=", "a", "b")])
+        compare(ctx, "C16-d", "new_identity[a,b] == [a=b]", scalar_of(res.at("a", "b"), "identity entry"), want, ident.path, "identity", {"a": "n", "b": "n"},
+                symmetric=())
+        subs = [b for b in find_local_impl(ctx, "arith::Sub", "SquareMatrix", "sub")]
+        if len(subs) != 1:
+            raise Undecided("impl Sub for &SquareMatrix")
+        ctx.fn(subs[0].path)
+        I = Interp(f)
+        res = I.run_fn(subs[0].path, [world.matrix("A", "n"), world.matrix("B", "n")])
+        compare(ctx, "C16-d", "(A−B)[r,c] == A[r,c] − B[r,c]", scalar_of(res.at("r", "c"), "entry"), leaf("A", "r", "c") - leaf("B", "r", "c"), subs[0].path,
+                "matrix-sub", {"r": "n", "c": "n"}, symmetric=())
+    guarded_clause(ctx, "C16-d", "matrix::SquareMatrix", "stability-helpers", body)
+
+
+# ---------------------------------------------------------------------------------------------------
+# C13 / C14-g: Box-Muller and the Gaussian block
+
+def gauss_closure_and_bm(ctx):
+    """(gauss body, reading closure, bm call terminator, bm body)"""
+    from .c14 import find_gauss
+    R = ctx.roles
+    gauss = find_gauss(ctx, R)[2]
+    read = R.read_fn()
+    for cb in ctx.facts.closures_of(gauss.path):
+        rs = [(bi, t) for bi, t, x in R.local_callees(cb) if x is read]
+        if len(rs) >= 1:
+            v = Vals(cb)
+            for bi, t, x in R.local_callees(cb):
+                if x is read:
+                    continue
+                roots = [v.root(a) for a in t["args"]]
+                if sum(1 for r in roots if r.kind == "call" and any(r.base[1] == rb for rb, _ in rs)) >= 2:
+                    return gauss, cb, (bi, t), x, rs
+    raise RoleLost("bm: callee inside the Gaussian routine's closure that receives two read-site values")
+
+
+def gaussian_pair_count(ctx, gauss):
+    """Extent of the range the pair closure is flat-mapped over, as a formula in D and L (kernel engine, nothing executed)."""
+    cap = {}
+
+    def fm(I, c, a):
+        cap["range"] = a[0]
+        raise Undecided("flat_map captured")
+    I = Interp(ctx.facts, models={"flat_map": fm})
+    rd_adt = ctx.roles.reader_adt()["adt"]
+    args = []
+    usz = ["D", "L"]
+    names = []
+    for l in gauss.locals[1:gauss.arg_count + 1]:
+        if rd_adt in l["ty"]:
+            args.append(Opaque("reader"))
+        elif l["ty"] == "usize":
+            args.append(None)
+            names.append(l.get("name"))
+        else:
+            args.append(Opaque(l.get("name") or "arg"))
+    # which usize parameter is the dimension / the loop count is decided by the call site in sample (argument provenance)
+    s = ctx.roles.sample()
+    v = Vals(s)
+    site = [(bi, t) for bi, t, cb in ctx.roles.local_callees(s) if cb is gauss][0][1]
+    for i, a in enumerate(site["args"]):
+        if args[i] is None:
+            r = v.root(a)
+            if r.path[-1:] == ("dimension",):
+                args[i] = Num(Expr.symbol("D"), size="D")
+            elif r.path[-1:] == ("num_loops",):
+                args[i] = num_size("L")
+            else:
+                raise Undecided("integer argument %d of the Gaussian routine has provenance %r (expected table.dimension / table.tropical_graph.num_loops)" % (i, r))
+    for key, b in ctx.facts.mir.items():
+        fi = ctx.facts.fns.get(b.path) or {}
+        if (ctx.facts.ty(fi.get("impl_self") or "") or {}).get("path") == rd_adt:
+            I.models[b.path] = lambda I_, c, a: num_const(0)
+    try:
+        I.run_fn(gauss.path, args)
+    except Undecided:
+        pass
+    if "range" not in cap:
+        raise Undecided("the Gaussian routine does not flat_map a pair closure over a range")
+    cls = cap["range"].classes[0]
+    e = I.derived_sizes.get(cls)
+    if e is None:
+        raise Undecided("pair count is not an arithmetic formula (%s)" % cls)
+    return e
+
+
+def run_c13(ctx):
+    ctx.rule("C13-a", "Box-Muller helper returns ( cos(2π·b)·√(−2·ln a), sin(2π·b)·√(−2·ln a) )")
+    ctx.rule("C13-b", "at its only call site a / b are the first / second of two consecutive reads and the pair is emitted as [.0, .1]")
+    ctx.rule("C13-c", "the consumer takes one element per innermost iteration of `for _ in 0..L { for i in 0..D { v[i] = next } push }` and nowhere else")
+    ctx.rule("C13-d", "number of pairs = (n + n mod 2)/2 with n = D·L (D, L from the table)")
+    f = ctx.facts
+    R = ctx.roles
+    try:
+        gauss, clo, (bbi, bt), bm, rs = gauss_closure_and_bm(ctx)
+    except RoleLost as e:
+        return ctx.lost("C13-a", str(e))
+    ctx.fn(gauss.path, clo.path, bm.path)
+
+    def a():
+        I = Interp(f)
+        res = I.run_fn(bm.path, [Num(Expr.symbol("a")), Num(Expr.symbol("b"))])
+        A, B, PI = Expr.symbol("a"), Expr.symbol("b"), Expr.atom(("sym", "pi"))
+        r = (Expr.const(-2) * A.fn("ln")).powf(sp.Rational(1, 2))
+        th = Expr.const(2) * PI * B
+        compare(ctx, "C13-a", "first component == cos(2πb)·√(−2 ln a)", scalar_of(res.items[0], "bm.0"), th.fn("cos") * r, bm.path, "box-muller-cos", {}, ())
+        compare(ctx, "C13-a", "second component == sin(2πb)·√(−2 ln a)", scalar_of(res.items[1], "bm.1"), th.fn("sin") * r, bm.path, "box-muller-sin", {}, ())
+    guarded_clause(ctx, "C13-a", bm.path, "box-muller", a)
+    # b: call site
+    from .. import cfg
+    v = Vals(clo)
+    idom = cfg.dominators(clo)
+    sites = sorted(rs, key=lambda x: sum(1 for y in rs if cfg.dominates(idom, y[0], x[0])))
+    r0, r1 = v.root(bt["args"][0]), v.root(bt["args"][1])
+    order_ok = len(sites) == 2 and r0 == v.root_place({"l": sites[0][1]["dest"]["l"], "p": []}) and r1 == v.root_place({"l": sites[1][1]["dest"]["l"], "p": []}) \
+        and cfg.dominates(idom, sites[0][0], sites[1][0])
+    n_bm = [1 for bi, t, x in R.local_callees(clo) if x is bm]
+    ctx.ob("C13-b", "helper(a = first read, b = second read), called once", order_ok and len(n_bm) == 1, clo.path, "bm-argument-order", where=pat.where(bt),
+           detail="args %r, %r; read sites in dominance order %s" % (r0, r1, [s_[0] for s_ in sites]))
+    emitted = None
+    for bi, si, st in pat.stmts(clo):
+        if st["place"]["l"] == 0 and st["rv"]["k"] == "aggregate" and st["rv"]["agg"] == "array":
+            emitted = [v.root(o) for o in st["rv"]["ops"]]
+    bmroot = v.root_place({"l": bt["dest"]["l"], "p": []})
+    ok = emitted is not None and len(emitted) == 2 and emitted[0] == bmroot.with_path(("0",)) and emitted[1] == bmroot.with_path(("1",))
+    ctx.ob("C13-b", "the closure emits [cos component, sin component] in this order", ok, clo.path, "bm-emission-order", detail="emitted %r" % (emitted,))
+    # c: consumption nest in gauss
+    from . import common
+    gv = Vals(gauss)
+    nexts = [(bi, t) for bi, t in gauss.calls() if callee_is(t, trait="Iterator", name="next") and "FlatMap" in (t["callee"].get("self_ty") or "")]
+    heads = common.loop_next_sites(gauss, gv)
+    range_heads = [h for h in heads if "Range" in (h[4]["callee"].get("self_ty") or "")]
+    ok = len(nexts) == 1 and len(range_heads) == 2
+    det = "%d next() calls on the pair iterator, %d range loops" % (len(nexts), len(range_heads))
+    if ok:
+        nb = nexts[0][0]
+        lps = cfg.loops(gauss)
+        depth = sum(1 for _h, bl in lps if nb in bl)
+        # inner loop bound is the const parameter D, outer bound the loop-count parameter
+        bounds = []
+        for h in range_heads:
+            itr = gv.root(h[4]["args"][0])
+            rng_l = None
+            for d in gv.defs.get(itr.base[1], []) if itr.kind == "local" else []:
+                if d[0] == "stmt" and d[3]["k"] == "use":
+                    r2 = gv.root(d[3]["op"])
+                    t2 = gv.call_term(r2)
+                    if t2 is not None and callee_is(t2, trait="IntoIterator", name="into_iter"):
+                        r3 = gv.root(t2["args"][0])
+                        rv = gv.rvalue_of(r3) if r3.kind == "local" else None
+                        if rv is not None and rv["k"] == "aggregate" and "end" in rv.get("fields", []):
+                            endop = rv["ops"][rv["fields"].index("end")]
+                            startop = rv["ops"][rv["fields"].index("start")]
+                            bounds.append((gv.root(startop), gv.root(endop), endop))
+        ends = [b[2] for b in bounds]
+        const_d = any(o["k"] == "const" and ("tyconst" in o or o.get("disp", "").replace("const ", "").strip() == "D") for o in ends)
+        param_l = any(o["k"] in ("copy", "move") and gv.root(o).kind == "arg" for o in ends)
+        starts_zero = all(b[0].kind == "const" and b[0].base[1] in ("0",) for b in bounds)
+        # the element goes to vec[i] with i the inner loop variable, pushed once per outer iteration
+        ok = depth == 2 and const_d and param_l and starts_zero and len(bounds) == 2
+        det += "; nesting depth of next(): %d; bounds const-D:%s param-L:%s from zero:%s" % (depth, const_d, param_l, starts_zero)
+    ctx.ob("C13-c", "one element is taken per innermost (component) iteration, loop-major", ok, gauss.path, "gaussian-consumption", detail=det)
+
+    def d():
+        e = gaussian_pair_count(ctx, gauss)
+        n = Expr.symbol("D") * Expr.symbol("L")
+        want = Expr.atom(("call", "idiv", n + Expr.atom(("call", "mod", n, Expr.const(2))), Expr.const(2)))
+        compare(ctx, "C13-d", "pair count == (D·L + (D·L mod 2)) div 2", e, want, gauss.path, "pair-count", {}, ())
+    guarded_clause(ctx, "C13-d", gauss.path, "pair-count", d)
+
+
+def dimension_formula(ctx):
+    """get_dimension() as a formula (kernel engine): evaluates the callee of the public getter."""
+    R = ctx.roles
+    gd = R.get_dimension()
+    callees = [cb for bi, t, cb in R.local_callees(gd)]
+    if len(callees) != 1:
+        raise Undecided("dimension_fn: callee of get_dimension")
+    dimfn = callees[0]
+    ctx.fn(dimfn.path)
+
+    def loops_hook(I, c, args):
+        edges = args[1] if len(args) > 1 else None
+        if isinstance(edges, Arr) and edges.classes == ("E",) and edges.name in ("range", "map"):
+            return num_size("L")
+        return Num(Expr.atom(("call", "loops", "?")))
+    hooks = {}
+    for key, b in ctx.facts.mir.items():
+        if (ctx.facts.fns.get(b.path) or {}).get("name") == "get_loop_number":
+            hooks[b.path] = loops_hook
+    I = Interp(ctx.facts, models=hooks)
+    res = I.run_fn(dimfn.path, [world.table()])
+    return dimfn, scalar_of(res, "dimension")
+
+
+def run_c14g(ctx):
+    ctx.rule("C14-g", "sibling agreement: the Gaussian routine reads 2·pairs = D·L + (D·L mod 2) coordinates, the Gaussian term of get_num_variables; "
+                      "get_dimension = 2E − 1 + D·L + (D·L mod 2)")
+    try:
+        gauss, clo, (bbi, bt), bm, rs = gauss_closure_and_bm(ctx)
+    except RoleLost as e:
+        return ctx.lost("C14-g", str(e))
+
+    def g():
+        pairs = gaussian_pair_count(ctx, gauss)
+        dimfn, dim = dimension_formula(ctx)
+        n = Expr.symbol("D") * Expr.symbol("L")
+        gterm = n + Expr.atom(("call", "mod", n, Expr.const(2)))
+        want = Expr.const(2) * Expr.symbol("E") - Expr.const(1) + gterm
+        compare(ctx, "C14-g", "get_dimension == 2E − 1 + D·L + (D·L mod 2)", dim, want, dimfn.path, "dimension-formula", {}, ())
+        compare(ctx, "C14-g", "pairs of the Gaussian routine == (Gaussian term of get_dimension) div 2 (two reads per pair; the term is even)", pairs,
+                Expr.atom(("call", "idiv", gterm, Expr.const(2))), gauss.path, "gaussian-count-sibling", {}, ())
+    guarded_clause(ctx, "C14-g", gauss.path, "gaussian-count", g)
+
+
 def run_c20b(ctx):
     pass
